@@ -145,6 +145,26 @@ def check_striped(a, info):
     import copy as _copy
     striped_view_check(_copy.copy(s), idx, wild, "copy.copy(StripedSequence)", info)
     del v1
+    # a view taken BEFORE scoring, kept while the sequence is scored (motifs of at most 33 positions: their look-ahead
+    # rows fit the spare rows every striped sequence is allocated with, so the storage stays where it is) and while a
+    # copy made in between comes and goes: it must go on showing the symbols of the sequence. (What is checked is the
+    # content; if freed memory is not reused the check sees nothing - it cannot raise a false alarm.)
+    if a.get("kept_view") and idx and all(len(sites[0]) <= 33 for sites in a["motifs"]):
+        s2 = lightmotif.stripe(seq, protein=protein)
+        old = memoryview(s2)
+        before = old.tolist()
+        c = s2.copy()
+        for sites in a["motifs"] or [[letters(protein)[0] * 5]]:
+            build_pssm(sites, protein).calculate(s2)
+        del c
+        size = max(64, old.nbytes + 32 * 40)
+        filler = [bytes([0xEE]) * n for n in (size, size - 32, size + 32, old.nbytes) for _ in range(40)]
+        after = old.tolist()
+        del filler
+        info.comparisons += 1
+        if after != before:
+            raise Violation("StripedSequence:view-kept-across-scoring", "a memoryview taken before calculate() no longer shows the sequence after a copy of the sequence was made and dropped")
+        info.cls("view-kept-across-scoring-and-a-dropped-copy")
     info.cls("empty", not idx)
     info.cls("view-after-reuse", bool(a["motifs"]))
     info.nontrivial = len(idx) > 32 or bool(a["motifs"])
@@ -285,7 +305,7 @@ def enc_args(draw):
 @st.composite
 def striped_args(draw):
     protein = draw(st.booleans())
-    return {"protein": protein, "seq": draw(sequence_st(protein)), "motifs": draw(st.lists(sites_st(protein, max_n=3, max_w=40), max_size=3))}
+    return {"protein": protein, "seq": draw(sequence_st(protein)), "motifs": draw(st.lists(sites_st(protein, max_n=3, max_w=40), max_size=3)), "kept_view": draw(st.booleans())}
 
 
 @st.composite
@@ -308,7 +328,7 @@ def score_args(draw):
 SUBS = [
     Sub("encoded-sequence", "EncodedSequence of a generated DNA / protein text (L 0..200, ~1024): len, obj[i] for i in [-2L-2, 2L+2] and +-2^31 / 2^63 (element or IndexError), str, 1-D unsigned-byte memoryview equal to the symbol list; non-trivial = non-empty",
         enc_args(), check_encoded, 250, 4000),
-    Sub("striped-sequence", "StripedSequence (incl. empty) before and after being reused by calculate() with up to 3 motifs of widths 1..40, and its copy: 2-D unsigned-byte view whose [column][row] element is the symbol at (column, row), padding = wildcard, any exposed extra rows = look-ahead rows; non-trivial = >= 2 rows or a view after reuse",
+    Sub("striped-sequence", "StripedSequence (incl. empty) before and after being reused by calculate() with up to 3 motifs of widths 1..40, and its copy: 2-D unsigned-byte view whose [column][row] element is the symbol at (column, row), padding = wildcard, any exposed extra rows = look-ahead rows; in half of the cases a view taken before scoring is kept while the sequence is scored (motifs <= 33 wide) and a copy made in between is dropped, and must still show the sequence; non-trivial = >= 2 rows or a view after reuse",
         striped_args(), check_striped, 250, 4000),
     Sub("matrices", "CountMatrix / WeightMatrix / ScoringMatrix of a motif created from generated sites (width 0..12, DNA K=5 and protein K=21 where the row stride differs from the column count): len, obj[i] for negative / out-of-range / huge i, row width K, a CountMatrix built from a dict of counts up to 2^32-1 whose elements must be those counts, and the ScoringMatrix float view of shape (positions, symbols) equal to the rows; non-trivial = width >= 2",
         matrix_args(), check_matrices, 250, 4000),
